@@ -59,7 +59,7 @@ def generate(repo, verif, build_dbus_dir):
     if len(re.findall(pat, body)) != 1:
         raise Shape("create_unique_client_name: the two static counters are not declared as known")
     body = re.sub(pat, "", body)
-    if "static" in body or "bus_registry_lookup" not in body:
+    if "static" in re.sub(r"/\*.*?\*/", "", body, flags=re.S) or "bus_registry_lookup" not in body:
         raise Shape("create_unique_client_name has an unknown shape")
     disp = function_text(dsp, r"^bus_dispatch\s*\(DBusConnection \*connection,\s*DBusMessage\s+\*message\)\s*\{")
     m = re.search(r"if \(bus_connection_is_active \(connection\)\)\s*\{\s*sender = bus_connection_get_name \(connection\);.*?"
@@ -102,14 +102,14 @@ static struct { int major, minor; BusRegistry reg; } samples[] = {
 int main (void)
 {
   unsigned i; int k;
-  printf ("Definition c_int_max : Z := %%d%%%%Z.\n", INT_MAX);
+  printf ("Definition c_int_max : Z := (%%d)%%%%Z.\n", INT_MAX);
   printf ("Definition c_service_dbus : list N := "); pbytes (DBUS_SERVICE_DBUS); printf (".\n");
   printf ("Definition c_not_active : list N := "); pbytes (%s); printf (".\n");
   printf ("Definition cuc_samples : list ((Z * Z * list (list N)) * option (list N * Z * Z)) := [\n");
   for (i = 0; i < sizeof samples / sizeof samples[0]; i++)
     {
       int fds[2]; pid_t pid; int status; char buf[256]; ssize_t n; size_t got = 0;
-      printf ("%%s ((%%d%%%%Z, %%d%%%%Z, [", i ? ";\n" : "", samples[i].major, samples[i].minor);
+      printf ("%%s (((%%d)%%%%Z, (%%d)%%%%Z, [", i ? ";\n" : "", samples[i].major, samples[i].minor);
       for (k = 0; samples[i].reg.names[k]; k++) { if (k) printf ("; "); pbytes (samples[i].reg.names[k]); }
       printf ("]), ");
       fflush (stdout);
@@ -124,7 +124,7 @@ int main (void)
           p = _dbus_string_get_const_data (&s);
           fprintf (o, "Some ([");
           for (j = 0; p[j]; j++) fprintf (o, "%%s%%d", j ? ";" : "", (unsigned char) p[j]);
-          fprintf (o, "], %%d%%%%Z, %%d%%%%Z)", next_major_number, next_minor_number);
+          fprintf (o, "], (%%d)%%%%Z, (%%d)%%%%Z)", next_major_number, next_minor_number);
           fflush (o);
           _exit (0);
         }
